@@ -276,6 +276,23 @@ CHECKS = {
         note="Trusted: vf/refsem.py, CPython's operators. Programs containing '/' are judged on "
              "Fraction-valued environments only (int / int is a float in Python); float results "
              "within 1e-12."),
+    "C20": dict(
+        category="model_checking", design="DESIGN.md 4/C20",
+        technique="explicit-state BFS over fusion histories plus bounded-exhaustive stream pairs, "
+                  "identifier placements and DAGs against an independent structural oracle, under "
+                  "several hash seeds",
+        text="Engine B: every history of <= 4 (quick) / <= 5 (thorough) fuse / "
+             "disambiguate-and-fuse operations over a 6-stream pool (id clashes, identifier "
+             "clashes, generated-looking names, all statement classes), from the empty stream, "
+             "executed on the real code with every transition checked and states deduplicated by "
+             "the observable stream. Engine A: all small stream pairs with every id assignment and "
+             "acyclic dependency relation, every identifier placement (written name, lhs index, "
+             "rhs, condition) under three filters, a grid of statements for read/written sets, all "
+             "labelled DAGs on <= 4 / <= 5 nodes plus long chains for the dot export. Everything "
+             "under 3 / 8 hash seeds.",
+        note="Trusted: vf.spec.to_spec and the statement constructors, pytools' unique-name "
+             "generator. The read set is read as required <= reported <= permitted; ids that do "
+             "not clash are not required to keep their names."),
 }
 
 NOT_BUILT_REASON = "check not built yet in this revision (planned, see DESIGN.md section 4)"
